@@ -584,6 +584,54 @@ def subclass_job(fam):
                 except Exception as e:      # noqa
                     rep.add(dict(sig, cls='exc-' + type(e).__name__), case, 'step %d: %r' % (i, e))
                     break
+    # ... and of a live TREE: a tree that holds data is given another state (what a data manager does
+    # when it reloads an invalidated node; the slots of a ghost survive in the C Persistent base class):
+    # multi-level -> other multi-level -> single embedded leaf -> None -> multi-level again
+    F.set_sizes(fam, 2, 2)
+    try:
+        keys7, _grid = F.universe(fam, 7, 'centred')
+        vals_ = F.values(fam)
+        for kind in F.TREE_KINDS:
+            ismap = F.is_map(kind)
+            for impl in F.IMPLS:
+                cls = F.cls(fam, kind, impl)
+
+                def mk(ks_):
+                    t_ = cls()
+                    for i_, k_ in enumerate(ks_):
+                        if ismap:
+                            t_[k_] = vals_[i_ % 2]
+                        else:
+                            t_.add(k_)
+                    return t_
+                sources = [mk(keys7[:5]), mk(keys7[2:]), mk(keys7[:1]), None, mk(keys7[1:6]), mk(keys7[:2]),
+                           mk(keys7)]
+                t = mk(keys7[3:])
+                for i, src in enumerate(sources):
+                    evaluations += 1
+                    guards['tree_setstate_replacements'] += 1
+                    sig = dict(sub=True, fam=fam, kind=kind, impl=impl, site='setstate-replace-tree')
+                    case = dict(sub=True, fam=fam, kind=kind, keyform='replace-tree', valform=str(i), entry=impl)
+                    try:
+                        t.__setstate__(None if src is None else src.__getstate__())
+                        want = C.dump(src, True) if src is not None else ('E',)
+                        got = C.dump(t, True)
+                        probs = [] if got == want else ['state %r, loaded %r' % (got, want)]
+                        if not probs:
+                            t._check()
+                            wantc = [] if src is None else (list(src.items()) if ismap else list(src.keys()))
+                            gotc = list(t.items()) if ismap else list(t.keys())
+                            if gotc != wantc:
+                                probs.append('contents %r, loaded %r' % (gotc, wantc))
+                        if probs:
+                            rep.add(dict(sig, cls='state-not-replaced'), case,
+                                    'step %d: __setstate__ on a live %s: %s' % (i, cls.__name__, probs[0]))
+                            break
+                    except Exception as e:      # noqa
+                        rep.add(dict(sig, cls='exc-' + type(e).__name__), case, 'step %d: %r' % (i, e))
+                        break
+    finally:
+        F.reset_sizes(fam)
     return dict(states=evaluations, transitions=evaluations, compared=evaluations,
                 evaluations=evaluations, distinct=evaluations, exhaustive=not rep.full,
                 guards=dict(guards), outcomes={}, violations=rep.all(), sample=sample)
